@@ -9,13 +9,13 @@ from props import evloop_common as ec
 META = {
     "technique": "TLA+ abstract timer object with silent Lin/Commit steps (TimerSched.tla) checked by TLC; real TimeoutScheduler/NewThreadScheduler/ThreadPoolScheduler/EventLoopScheduler run under deterministic thread schedules with a controlled clock and validated as traces by TLC (TimerSchedTrace.tla); ImmediateScheduler programs enumerated by TLC (ImmediateSched.tla) and replayed",
     "level": "TLC checks NotEarly/CancelledBeforeDueNeverRuns/AtMostOnce on every interleaving of the bounded generator; relative/absolute schedules and cancellations placed before, at and after the due time are executed on each real thread-based scheduler for every sampled schedule up to the preemption bound, and each trace must be explainable with a Commit step no earlier than the due time (a cancel that returned before the due time is therefore effective); every ImmediateScheduler program of <= 3-4 commands (nested scheduling, clock moves) is replayed and its event sequence must equal the model's (synchronous run, WouldBlockException iff positive delay).",
-    "note": "TLC 2026.09; threading.Timer, Thread (thread_factory), Event, Condition and ThreadPoolExecutor replaced by cooperative shims on a controlled clock (the executor is a FIFO pool of logical worker threads); integer-second times",
+    "note": "TLC 2026.09; threading.Timer, Thread (thread_factory), Event, Condition and ThreadPoolExecutor replaced by cooperative shims on a controlled clock (the executor is a FIFO pool of logical worker threads); scenario scripts in ticks under two time-scale profiles (1 tick = 1 s; 1 tick = 0.4 ms), traces in integer microseconds",
     "ref": "DESIGN.md 6 C34, 3.3, D.6",
 }
 
 RULE = ("6-9 client scenarios (relative, timedelta and absolute schedules, zero/negative delays, cancels before / at / after the due time, "
         "cancel from another thread, actions that schedule) x {Timeout, NewThread, ThreadPool, ThreadPool(max_workers=1), EventLoop, "
-        "EventLoop(exit_if_empty)}; level-sampled schedules up to the preemption bound + seeded random; every ImmediateScheduler program up to "
+        "EventLoop(exit_if_empty)} x time scale {1 tick = 1 s, 1 tick = 0.4 ms (positive sub-millisecond delays, woken 0.4 ms before due)}; level-sampled schedules up to the preemption bound + seeded random; every ImmediateScheduler program up to "
         "the command budget in float and timedelta form; non-trivial = distinct concurrent traces + immediate programs with a refusal or nesting")
 ASSUME = [
     "controlled schedules preempt only where the pinned GIL interpreter can: a subset of the language-level interleavings",
